@@ -208,7 +208,10 @@ def _dialogue(make_question, script, eof, interactive, nchoices=1, probe=False):
     with _Bounded(probe):
         try:
             q = make_question()
-            result = {"value": q.ask(io)}
+            # half of the non-interactive dialogues ask through a SECTION of the I/O (it shares the input and with it
+            # the interaction setting)
+            target = io.section() if (not interactive and len(script) % 2 == 0) else io
+            result = {"value": q.ask(target)}
         except NeedMoreInput:
             result = {"pending": True}
         except Budget as e:
